@@ -160,6 +160,13 @@ def ret1_rule(prog, rep):
 
 
 
+def _is_module_namespace(e):
+    """the expression denotes the namespace dictionary of the module it is written in"""
+    t = unparse(e).replace('"', "'")
+    return t in ("globals()", "sys.modules[__name__].__dict__", "vars(sys.modules[__name__])", "vars()",
+                 "importlib.import_module(__name__).__dict__")
+
+
 def run(prog, rep):
     rep.decided = DECIDED
     rep.not_decided = NOT_DECIDED
@@ -329,7 +336,7 @@ def run(prog, rep):
         rep.check(routed, "TAB-1", "dtypes.%s handles n-tuple types" % fn, "ok",
                   "dtypes.%s no longer routes '<n>-tuple' types to the tuple converter" % fn, f.where)
     slf = dmod.assigns.get("self", [])
-    rep.check(bool(slf) and "__dict__" in unparse(slf[-1]), "TAB-1", "dtypes.self is the module dictionary", "ok",
+    rep.check(bool(slf) and _is_module_namespace(slf[-1]), "TAB-1", "dtypes.self is the module dictionary", "ok",
               "the dispatch table `self` is no longer the module's __dict__", dmod.path)
 
     ret1_rule(prog, rep)
